@@ -154,6 +154,18 @@ def is_nontrivial(spec, hist):
 def check_last(spec, hist, ctx, count_from=0):
     """Execute ``hist`` on a fresh model, judge its last step.  Returns the
     Run (for fingerprinting) ."""
+    if spec.name == 'deepchain':
+        import sys
+        old = sys.getrecursionlimit()
+        sys.setrecursionlimit(1000)        # the interpreter's default
+        try:
+            return _check_last(spec, hist, ctx, count_from)
+        finally:
+            sys.setrecursionlimit(old)
+    return _check_last(spec, hist, ctx, count_from)
+
+
+def _check_last(spec, hist, ctx, count_from=0):
     run = Run(spec)
     for op in hist[:-1]:
         run.apply(op)
@@ -167,8 +179,15 @@ def check_last(spec, hist, ctx, count_from=0):
     ctx.count('traces_validated_against_impl')
     if op[0] == 'eval':
         c = op[1]
-        want = models.obs(spec.reference(run.inputs)[c], lib)
         tags = ['op:eval', 'model:' + spec.name]
+        if spec.differential:
+            # no reference arithmetic: the fresh model is the oracle
+            fresh = models.build(spec, lib, spec.current_cells(run.inputs))
+            want2 = lib.eval_addr(fresh, c)
+            ctx.check(key + '#fresh', got, want2,
+                      tags + ['oracle:fresh-model'], inputs, nontriv)
+            return run
+        want = models.obs(spec.reference(run.inputs)[c], lib)
         if not models.agrees(got, want):
             ctx.fail(key + '#value', tags + ['oracle:reference'], inputs, want,
                      got, nontriv)
@@ -222,7 +241,7 @@ def check_last(spec, hist, ctx, count_from=0):
                   ['oracle:get-input', 'via:name'], inputs, False)
     ctx.check(key + '#get-pure', run.fp(), before, ['oracle:get-pure'], inputs,
               False)
-    if len(hist) <= 2 and spec.formulas:
+    if len(hist) <= 2 and spec.formulas and not spec.differential:
         # on a twin: the run itself is handed back for fingerprinting
         twin = Run(spec)
         for o in hist:
@@ -311,7 +330,7 @@ def plan(tier):
     for f in models.COSTLY:
         spec = f()
         ops = alphabet(spec)
-        depth = COSTLY_DEPTH[tier]
+        depth = COSTLY_DEPTH[tier] + (1 if spec.name == 'deepchain' else 0)
         shards.append({'model': spec.name, 'mode': 'short', 'plen': 2})
         for prefix in itertools.product(range(len(ops)), repeat=2):
             shards.append({'model': spec.name, 'mode': 'unmerged',
